@@ -356,4 +356,153 @@ Qed.
 
 End Constraints.
 
+(** (6) remaining pieces of the code's normal form *)
+Lemma code_factors_gen : forall (fb : flat) (l : list nat) s,
+  (forall i, sustain_of fb i = 1) ->
+  map (fun pr => code_factor fb (fst pr) (snd pr)) (combine (seq s (List.length (map (mkff p) l))) (map (mkff p) l))
+  = map (fun f => {| f_nlevels := nlv p f; f_sustain := 1; f_derived := None |}) l.
+Proof.
+  intros fb l s Hsu. revert s. induction l as [|f l IH]; intro s; [reflexivity|]. cbn [map List.length seq combine fst snd]. f_equal; [|apply IH].
+  unfold code_factor. rewrite Hsu. unfold mkff at 1 2. cbn [ff_levels ff_window]. rewrite map_length. reflexivity.
+Qed.
+
+Lemma flat_map_flat_map : forall {A B C} (f : B -> list C) (g : A -> list B) l, flat_map f (flat_map g l) = flat_map (fun x => flat_map f (g x)) l.
+Proof. intros. induction l as [|x l IH]; [reflexivity|]. cbn. rewrite flat_map_app, IH. reflexivity. Qed.
+
+Lemma st_cons_ci : st_cons (the_ci p design crossing ics rcc ef) = FCross :: FConsistency :: flat_map (desugar_constraint fds) ics.
+Proof. unfold st_cons. cbn [the_ci ci_design ci_constraints ci_sustains existsb Nat.eqb negb orb app]. rewrite app_nil_r. reflexivity. Qed.
+
+Lemma st_exclude_desugar : forall l, st_exclude (flat_map (desugar_constraint fds) l) = excluded_levels l.
+Proof.
+  induction l as [|ic l IH]; [reflexivity|]. unfold st_exclude, excluded_levels in *. cbn [flat_map]. rewrite flat_map_app, IH. f_equal.
+  destruct ic as [c|kind k f wb]; cbn [desugar_constraint flat_map].
+  - destruct c; reflexivity.
+  - generalize (seq 0 (nlevels_of fds f)). intro ls. induction ls as [|x ls IHl]; [reflexivity|]. cbn [map flat_map]. rewrite IHl. destruct kind; reflexivity.
+Qed.
+
+Lemma same_keys_true : forall (a b : combos), (forall k, In k (map fst a) <-> In k (map fst b)) -> same_keys a b = true.
+Proof.
+  intros a b H. unfold same_keys. apply andb_true_iff. split; apply forallb_forall; intros [k v] Hin; cbn [fst]; unfold memb;
+    apply existsb_exists; exists k; (split; [|apply names_eqb_refl]).
+  - apply H. apply in_map_iff. exists (k, v). split; [reflexivity|exact Hin].
+  - apply H. apply in_map_iff. exists (k, v). split; [reflexivity|exact Hin].
+Qed.
+
+Lemma list_nat_eqb_refl : forall l, list_nat_eqb l l = true.
+Proof. induction l as [|x l IH]; [reflexivity|]. cbn. rewrite Nat.eqb_refl. exact IH. Qed.
+
+(** * the tie *)
+Theorem plain_sem_eqv : forall fb ds,
+  p_main p = PCross design crossing cs rcc ->
+  create_flat (the_ci p design crossing ics rcc ef) = FOk fb -> doc_sem p = Ok ds ->
+  sem_eqv (code_sem fb) (ds_sem ds).
+Proof.
+  intros fb ds Hmain Hfb Hds.
+  destruct (create_flat_ci p design crossing Hpos Hne ics rcc ef fb Hfb) as [HS Efb]. fold Sz in HS.
+  (* the documented side *)
+  unfold doc_sem, doc_sem_block in Hds. rewrite Hmain in Hds. inv_bind Hds as bd Hbd Hsem.
+  destruct (doc_block_plain p design crossing cs rcc Hmain Hsimple Hpos Hne bd Hbd) as [allc [feas [Ha [Hfe Ebd]]]].
+  cbv zeta in Ebd. rewrite (doc_size allc feas Ha Hfe) in Ebd. fold M in Ebd.
+  set (T := Nat.max (Nat.max Sz 1) M) in *.
+  replace (Sz =? 0) with false in Ebd by (symmetry; apply Nat.eqb_neq; lia).
+  set (w := ceil_div T Sz) in *.
+  set (x0 := {| x_factors := crossing; x_S := Sz; x_P := 0; x_su := 1; x_cw := 1; x_combos := if rcc then allc else feas;
+                x_complete := same_keys feas allc; x_rcc := rcc |}) in *.
+  subst bd.
+  destruct (sem_of_plain p design crossing cs rcc Hmain Hsimple Hpos HndD Hne (set_cw x0 w) T ds eq_refl eq_refl eq_refl Hsem)
+    as [ET [EF [Hchunk [[mult [EX Hmult]] [ks [Hks EK]]]]]].
+  cbn [set_cw x_S x_cw x_combos x_complete x_rcc x0] in Hchunk, EX, Hmult, EK.
+  assert (HT : 0 < T) by (unfold T; lia).
+  (* the code side *)
+  set (ci := the_ci p design crossing ics rcc ef) in *.
+  set (g := st_geometry ci [0] (pT p design crossing ics rcc ef)) in *.
+  assert (EpT : Z.to_nat (pT p design crossing ics rcc ef) = T) by (rewrite pT_eq; apply Nat2Z.id).
+  assert (Epw : Z.to_nat (pw p design crossing ics rcc ef) = w) by (rewrite (pw_eq HS); apply Nat2Z.id).
+  rewrite EpT, Epw in Efb.
+  assert (Hd : fl_design fb = fds) by (rewrite Efb; reflexivity).
+  assert (Hc : fl_crossings fb = [cr]) by (rewrite Efb; reflexivity).
+  assert (Hs : fl_sustains fb = [1]) by (rewrite Efb; reflexivity).
+  assert (Htr : fl_trials fb = T) by (rewrite Efb; reflexivity).
+  assert (Hal : fl_alignment fb = EqualPreamble) by (rewrite Efb; reflexivity).
+  assert (Hex : fl_exclude fb = excl).
+  { rewrite Efb. cbn [mkflat fl_exclude]. unfold ci. rewrite st_cons_ci. unfold st_exclude at 1. cbn [flat_map app].
+    apply st_exclude_desugar. }
+  assert (Hexd : fl_excluded_derived fb = []) by (rewrite Efb; reflexivity).
+  assert (Hgt : g_trials g = T) by (unfold g, st_geometry; cbn [g_trials]; exact EpT).
+  assert (Hgp : g_preamble g = 0).
+  { unfold g, st_geometry. cbn [g_preamble]. unfold ci. rewrite (st_crossings_ci p design crossing Hpos Hne ics rcc ef).
+    reflexivity. }
+  assert (Hgs : forall kv, In kv (g_sustain g) -> snd kv = 1).
+  { intros kv Hin. unfold g, st_geometry in Hin. cbn [g_sustain] in Hin. apply in_map_iff in Hin. destruct Hin as [f [<- _]]. reflexivity. }
+  assert (Hsu : forall i, sustain_of fb i = 1) by (intro i; apply (sustain_one design crossing fb Hc Hs)).
+  (* the four components *)
+  unfold sem_eqv. split; [|split; [|split]].
+  - unfold code_sem. cbn [s_trials]. rewrite Htr, ET. reflexivity.
+  - unfold code_sem. cbn [s_factors]. rewrite EF, Hd. unfold fds. apply code_factors_gen. exact Hsu.
+  - (* constraints *)
+    unfold code_sem. cbn [s_constraints]. rewrite EK.
+    assert (Ecomplete : (negb (same_keys feas allc) && rcc || false) && nonempty design = false).
+    { destruct (Bool.bool_dec rcc true) as [Hr|Hr]; [|apply not_true_is_false in Hr; rewrite Hr; rewrite andb_false_r; reflexivity].
+      rewrite same_keys_true; [reflexivity|]. intro k.
+      destruct (all_combos_keys p design crossing Hsimple Hpos allc Ha) as [_ Hka].
+      destruct (feasible_keys p design crossing Hsimple Hpos HndD HndC Hlev (excludes_of cs) feas excludes_simple Hfe) as [_ Hkf].
+      rewrite Hka, Hkf. split.
+      - intros [ls [H1 [_ H3]]]. exists ls. auto.
+      - intros [ls [H1 H3]]. exists ls. split; [exact H1|]. split; [|exact H3].
+        pose proof (exI_false_rcc Hr ls H1) as E. unfold excl in E.
+        rewrite (ex_agree p design crossing Hsimple Hnames Hpos cs ics Hics ls H1) in E. exact E. }
+    rewrite Ecomplete, app_nil_r.
+    rewrite (cons_agree T HT fb Htr Hal g Hgt Hgp Hgs (set_cw x0 w) cs ics ks Hics Hks).
+    assert (Hcons : fl_constraints fb = map (init_wb g) (st_cons ci)) by (rewrite Efb; cbn [mkflat fl_constraints]; apply app_nil_r).
+    rewrite Hcons. unfold ci. rewrite st_cons_ci. cbn [map flat_map init_wb code_constraint app].
+    unfold code_of. generalize ics. intro l. induction l as [|ic l IH]; [reflexivity|].
+    cbn [flat_map]. rewrite map_app, flat_map_app, IH. reflexivity.
+  - (* the crossing *)
+    unfold code_sem. cbn [s_crossings]. rewrite Hc, EX. cbn [code_crossings]. constructor; [|constructor].
+    unfold crossing_eqv, code_crossing. cbn [c_factors c_first c_chunk c_mult]. split; [reflexivity|]. split; [|split].
+    + unfold preamble_size. rewrite Hal. rewrite Efb. reflexivity.
+    + unfold crossing_weight. rewrite Hc. cbn [crossing_ind]. rewrite list_nat_eqb_refl. rewrite Efb. cbn [mkflat fl_sizes fl_weights nth]. reflexivity.
+    + (* the multiplicities, as sets *)
+      intro xm. rewrite (code_combinations fb Hd Hex Hexd). rewrite map_map.
+      assert (Ecw : crossing_weight fb cr = w).
+      { unfold crossing_weight. rewrite Hc. cbn [crossing_ind]. rewrite list_nat_eqb_refl. rewrite Efb. reflexivity. }
+      rewrite Ecw. rewrite in_map_iff.
+      assert (Hcode : (exists ls, (map snd (combine cr ls), combination_weight fb (combine cr ls) * sustain_of fb (hd 0 cr) * w) = xm /\
+                                  In ls (filter (fun ls => negb (exI design crossing excl ls)) (IP p crossing)))
+                      <-> exists ls, In ls (IP p crossing) /\ negb (exI design crossing excl ls) = true /\ xm = (ls, W p crossing ls * w * 1)).
+      { split; intros [ls H].
+        - destruct H as [E Hin]. apply filter_In in Hin. destruct Hin as [Hls Hp]. exists ls. split; [exact Hls|]. split; [exact Hp|].
+          rewrite <- E. rewrite (code_weight fb Hd ls Hls), Hsu.
+          assert (El : map snd (combine cr ls) = ls).
+          { pose proof (in_IP_length p crossing ls Hls) as Hlen. unfold cr. clear -Hlen. revert ls Hlen. induction crossing as [|f fs IH]; intros [|l ls] Hlen; try discriminate; [reflexivity|].
+            cbn. f_equal. apply IH. cbn in Hlen. lia. }
+          rewrite El. f_equal. ring.
+        - destruct H as [Hls [Hp ->]]. exists ls. split; [|apply filter_In; split; assumption].
+          rewrite (code_weight fb Hd ls Hls), Hsu.
+          assert (El : map snd (combine cr ls) = ls).
+          { pose proof (in_IP_length p crossing ls Hls) as Hlen. unfold cr. clear -Hlen. revert ls Hlen. induction crossing as [|f fs IH]; intros [|l ls] Hlen; try discriminate; [reflexivity|].
+            cbn. f_equal. apply IH. cbn in Hlen. lia. }
+          rewrite El. f_equal. ring. }
+      rewrite Hcode. clear Hcode.
+      destruct (Bool.bool_dec rcc true) as [Hr|Hr].
+      * rewrite Hr in Hmult. destruct (all_combos_keys p design crossing Hsimple Hpos allc Ha) as [_ Hka].
+        rewrite (doc_mult_char allc (fun _ => true) w mult (fun k v Hin => all_combos_weight p crossing allc k v Ha Hin)
+                   (fun combo => conj (fun H => match proj1 (Hka combo) H with ex_intro _ ls (conj H1 H2) => ex_intro _ ls (conj H1 (conj eq_refl H2)) end)
+                                      (fun H => match H with ex_intro _ ls (conj H1 (conj _ H2)) => proj2 (Hka combo) (ex_intro _ ls (conj H1 H2)) end))
+                   Hmult xm).
+        split; intros [ls [H1 [H2 H3]]]; exists ls; (split; [exact H1|split; [|exact H3]]).
+        -- reflexivity.
+        -- rewrite (exI_false_rcc Hr ls H1). reflexivity.
+      * apply not_true_is_false in Hr. rewrite Hr in Hmult.
+        destruct (feasible_keys p design crossing Hsimple Hpos HndD HndC Hlev (excludes_of cs) feas excludes_simple Hfe) as [_ Hkf].
+        assert (Hkf' : forall combo, In combo (map fst feas) <->
+                        exists ls, In ls (IP p crossing) /\ negb (exI design crossing excl ls) = true /\ zipw (nm p) crossing ls = combo).
+        { intro combo. rewrite Hkf. split; intros [ls [H1 [H2 H3]]]; exists ls; (split; [exact H1|split; [|exact H3]]).
+          - unfold excl. rewrite (ex_agree p design crossing Hsimple Hnames Hpos cs ics Hics ls H1), H2. reflexivity.
+          - unfold excl in H2. rewrite (ex_agree p design crossing Hsimple Hnames Hpos cs ics Hics ls H1) in H2. apply negb_true_iff in H2. exact H2. }
+        assert (Hv : forall k v, In (k, v) feas -> combo_weight p crossing k = Ok v).
+        { intros k v Hin. eapply feasible_plain_weight; eauto using excludes_simple. intros f Hf'. eapply nth_error_In. apply Hpos. exact Hf'. }
+        rewrite (doc_mult_char feas (fun ls => negb (exI design crossing excl ls)) w mult Hv Hkf' Hmult xm). reflexivity.
+Qed.
+
 End Main.
